@@ -200,7 +200,7 @@ def WB.tabLoop (b : WB) (tag : Tag) (pos : Nat) (one : Bool) : Nat → Except Er
 /-- one character of add_text; `cur` = true when the loop-local tag is the wrap tag -/
 def WB.addChar (b : WB) (m : WS) (mainTag wrapTag : Tag) (cur : Bool) (c : Ch) : Except Err (WB × Bool) :=
   let tag := if cur then wrapTag else mainTag
-  let r : Except Err WB := if c.ws && b.wordlen > 0 then b.flushWord m else .ok b
+  let r : Except Err WB := if c.ws && !b.word.noContent then b.flushWord m else .ok b
   match r with
   | .error e => .error e
   | .ok b =>
